@@ -433,6 +433,8 @@ def run_history(ops, ref_steps=4000, immediate=False, skip_undecided=False, trac
         keys = sorted(set(ref.keys.get(op[1], ())) | set(DB_KEYS)) if op[0] == 'db' else ()
         try:
             o = im.do(op, keys)
+        except impl.ImplWork:
+            return i, robs, iobs, None, ref          # too expensive (term copying): the prefix decided so far stands
         except impl.ImplBudget:
             return i, robs, iobs, ('impl-does-not-terminate', i, op, r, None), ref
         except FreshnessError as e:
